@@ -181,7 +181,7 @@ func ParseBlockInfo(data []byte, blockNumber uint32) *BlockInfo {
 	}
 
 	// Parse page header
-	lsn := u64(data, 0)
+	lsn := uint64(u32(data, 0))<<32 | uint64(u32(data, 4)) // pd_lsn = {xlogid, xrecoff}
 	info.LSN = FormatLSN(lsn)
 	info.Checksum = u16(data, 8)
 	info.Flags = u16(data, 10)
